@@ -331,6 +331,53 @@ def d5_empty_is_not_absent(chk: Check) -> None:
                          "as one key")
 
 
+def d2d_policy_aware_insertion(chk: Check) -> None:
+    """A hash or list arriving at the merge point is merged by the
+    policy-aware mergers (_merge_dicts / _merge_lists / _merge_sets), which
+    consult the Array, Array-of-Hashes, Hash and Set policies.  The
+    insertion routines themselves must not add to the target directly: an
+    appended record bypasses `aoh=deep|unique|left`."""
+    prog = chk.prog
+    chk.rule("C11-D2d", "_insert_dict / _insert_list change the target only "
+             "through the policy-aware mergers", floor=4)
+    growers = ("append", "insert", "extend", "add", "update", "setdefault",
+               "append_list_element")
+    for name in ("Merger._insert_dict", "Merger._insert_list"):
+        fi = prog.func(name)
+        chk.analysed(fi)
+        lhs = fi.params()[2]
+        direct = []
+        for c in walk_local(fi.node):
+            if isinstance(c, ast.Call) and isinstance(c.func, ast.Attribute) \
+                    and c.func.attr in growers:
+                if src(c.func.value) == lhs or (
+                        c.args and src(c.args[0]) == lhs):
+                    direct.append(c)
+            if isinstance(c, ast.Subscript) and \
+                    isinstance(c.ctx, (ast.Store, ast.Del)) and \
+                    src(c.value) == lhs:
+                direct.append(c)
+        for d in direct:
+            chk.fail("C11-D2d", fi, d, "{}: {}".format(fi.node.name,
+                                                       src(d)[:50]),
+                     "the target is changed directly instead of through a "
+                     "policy-aware merger: the configured Array / "
+                     "Array-of-Hashes policy is not applied at the merge "
+                     "point")
+        mergers = [c for c in walk_local(fi.node) if isinstance(c, ast.Call)
+                   and src(c.func) in ("self._merge_dicts",
+                                       "self._merge_lists",
+                                       "self._merge_sets") and
+                   c.args and src(c.args[0]) == lhs]
+        for m in mergers:
+            chk.ok("C11-D2d", fi, m, "{}: {}".format(fi.node.name,
+                                                     src(m.func)),
+                   "target handed to the merger")
+        if not mergers:
+            chk.fail("C11-D2d", fi, fi.node, fi.node.name,
+                     "no policy-aware merger is given the target")
+
+
 def d4_no_partial(chk: Check) -> None:
     prog = chk.prog
     chk.rule("C11-D4", "yaml-merge writes its output only with a zero exit "
@@ -358,4 +405,5 @@ def run(chk: Check) -> None:
     d3_rebase(chk)
     d3b_strip(chk)
     d5_empty_is_not_absent(chk)
+    d2d_policy_aware_insertion(chk)
     d4_no_partial(chk)
